@@ -29,7 +29,28 @@ EXPLANATION = ("body VCs of _transcribe/__init__/search/group/span/start/end aga
 def obligations(ctx):
     obs = ctx.verify(FUNCTIONS)
     obs += lemmas(ctx)
+    obs += literal(ctx)
     return obs
+
+
+def literal(ctx):
+    """C: the real `_lettermap` literal (read from the AST), looked up as _transcribe does, gives for every
+    letter the class of the statement's IUPAC table"""
+    from pyvc.values import State, VT
+    from pyvc.symex import Frame
+    ex = ctx.executor()
+    st = State()
+    letter = tm.V("letter", STR)
+    mod = ctx.repo.module(F)
+    outs = ex.class_attr("DNARegex", "_lettermap", st, Frame(mod))
+    (s1, tag, d) = outs[0]
+    got = ex.call(ex.models.value_method(ex, s1, d, "get"), [VT(letter), VT(letter)], {}, s1, Frame(mod))
+    (s2, tag2, v) = got[0]
+    ob = Obligation("C16.C1 _lettermap agrees with the IUPAC table for every letter", [tm.eq(tm.slen(letter), 1)],
+                    tm.eq(v.t, regex_c.tr1_term(letter)), kind="C", model_terms=dict(letter=letter),
+                    text="cls._lettermap.get(letter, letter) == table(letter) for all one-letter strings",
+                    meta=dict(function="DNARegex._lettermap", file=F, clause="lettermap"))
+    return [ob]
 
 
 def lemmas(ctx):
